@@ -97,7 +97,8 @@ def view_of_st(st):
                        if x["present"] else {"present": False}) for x in st["store"]["jobs"]],
             "logs": list(st["logs"]),
             "res": st["last"]["res"], "err": st["last"]["err"], "new": st["last"]["new"],
-            "skip": st["last"]["res"] == "skip", "gated": bool(st.get("conf", {}).get("has"))}
+            "skip": st["last"]["res"] == "skip", "gated": bool(st.get("conf", {}).get("has")),
+            "via": st["last"].get("via", ""), "http": st["last"].get("http", 0)}
 
 
 def projection(core):
